@@ -310,6 +310,9 @@ pub fn c16(g: &mut Gen) {
 }
 
 pub fn c09_sp(g: &mut Gen) {
+    // constructors with invalid sizes of every magnitude: an error, never a panic
+    g.group(vec!["sp - builder 10 11 0 : c".to_string(), format!("sp - builder 10 {} 0 : c", MAXU), format!("sp - builder 0 {} 0 : c", MAXU - 1),
+                 format!("sp - builder 7 {} 0 : t1 c", 1u64 << 40), format!("sp - builder {} {} 0 : c", MAXU - 1, MAXU), "sp - builder 0 1 0 : c".to_string()]);
     for (n, vals) in [(0u64, vec![]), (1, vec![0u64]), (10, vec![]), (100, vec![0, 50, 99]), (100, vec![99]), (1000, (0..1000).step_by(7).collect::<Vec<u64>>()), (MAXU, vec![0, 1, MAXU - 1])] {
         let m = vals.len() as u64;
         let mut lines = vec![format!("sp A build {} 0 {}", n, vals_str(&vals))];
